@@ -390,7 +390,7 @@ func runC17(c *Ctx) {
 	r.Rule("R1", "every store to Config.Me stores a non-nil value: a fresh allocation, the result of a function none of whose module implementations returns nil, or a value guarded by a dominating != nil; Me() returns that field")
 	r.Rule("R2", "001 adopts line.Target() (ReNick(me.Nick, target) when tracking, store to Config.Me.Nick otherwise); 433 calls Nick(NewNick(Args[1])) on every path and adopts it only when Args[1] is the current nick; the untracked NICK handler stores Args[0] under line.Nick == current nick; the tracked one calls ReNick(line.Nick, Args[0]) unconditionally; only listed conditions guard these effects")
 	r.Rule("R3", "DefaultNewNick returns old[:len(old)-1] + string(c) with c < 0x80 on every arm (one byte: same length, same prefix)")
-	r.Rule("R4", "with tracking on Me() is the tracker's record, so it follows a rename only if the tracker's ReNick re-keys everything on every successful path (shared with C12.R3)")
+	r.Rule("R4", "with tracking on Me() is the tracker's record, so it follows a rename only if the tracker's ReNick re-keys everything on every successful path (shared with C12.R3) and the record Me() reads is the one filed in the nick table: it is set only while the tracker is constructed (shared with C12.R7) - a Wipe that installs a fresh record leaves renames to the old one")
 	r.Rule("R6", "the nick handlers compare Line.Nick with the client's nick, so the parser must hand over every nick unaltered: the nick!user@host split is positional only (shared with C01.R10) - a nick alphabet check in the parser would make the client deaf to changes of a nick such as the backtick one its own generator yields")
 	r.Rule("R7", "with tracking on a rename to a nick the tracker still knows is refused, so the tracker must forget every user who quits: the QUIT state handler calls DelNick(line.Nick) under no condition of its own (shared with C13.R1) - a ghost left behind, say after a netsplit, blocks the client's own change to that nick and Me() goes stale")
 	if n := c.effectsRule("R7", []string{"QUIT"}); true {
@@ -401,7 +401,7 @@ func runC17(c *Ctx) {
 		c.handoverRule("R8", pf.Member)
 	}
 	r.Rule("R5", "the built-in handlers that keep the nick current (internal table: 001, 433, NICK) stay registered for the life of the client: no Remover obtained by registering an internal-table handler is ever invoked, whichever way tracking is switched")
-	c.trackerRules(map[string]string{"R3": "R4"})
+	c.trackerRules(map[string]string{"R3": "R4", "R7": "R4"})
 	c.positionalSplitRule("R6")
 	if g, _ := c.Client.Members[c.nm("intHandlers")].(*ssa.Global); r.Anchor("R5", "intHandlers table and (*Conn).handle", g != nil && c.Func(c.Client, "(*Conn).handle") != nil) {
 		nRegs, bad := c.permanentRegistrations(g, c.Func(c.Client, "(*Conn).handle"))
@@ -665,6 +665,8 @@ func runC18(c *Ctx) {
 	r.Rule("R2", "every dial call dials Config.Server; in the connect routine the only stores to it are JoinHostPort(Server, \"6697\") under SSL / \"6667\" otherwise, both on the !hasPort(Server) edge, before any dial")
 	r.Rule("R3", "the PING handler calls Pong(line.Args[0]); lines reach handlers whole (delimiter framing, shared with C03.R1)")
 	r.Rule("R4", "the ping goroutine is spawned exactly under PingFreq > 0; it pings on each tick of a ticker of period PingFreq")
+	r.Rule("R10", "every PONG (and every registration line) handed to Raw reaches the send goroutine: Raw enqueues each line by a plain blocking send in its own body on every path (shared with C09.R1) - a Raw that drops lines when the queue is full leaves a server PING unanswered under load")
+	c.rawSenderRule("R10")
 	r.Rule("R9", "PINGs of its own exactly when PingFreq is positive: the library never stores to Config.PingFreq of an existing Config (only while a Config is being constructed), so a configured 0 stays 0 at connect time")
 	r.Rule("R8", "PASS is sent exactly when the application set a password: inside the library Config.Pass of an existing Config is only ever stored with a value the API caller passed in (ConnectTo's argument) - never cleared or rewritten by the library")
 	r.Rule("R5", "the registration lines are the first the new connection sends: every successful connect starts from a newly made outbound (and inbound) queue on every path, so nothing queued during or before an outage precedes or duplicates PASS/NICK/USER (shared with C07.R4)")
@@ -1227,6 +1229,10 @@ func runC19(c *Ctx) {
 	if capFn == nil || authFn == nil {
 		return
 	}
+	r.Rule("R9", "advertised / held means that very name: the capability set's Has answers with the map entry of its argument and nothing else (no prefix or pattern match: 'away' is not 'away-notify')")
+	c.capHasRule("R9")
+	r.Rule("R10", "SASL data reaches the wire as encoded: what Raw enqueues is its parameter cut at CR/LF and nothing else (shared with C09.R1 enqueue identity) - a length clamp in Raw truncates a long AUTHENTICATE payload after it was encoded correctly")
+	c.enqueueIdentityRule("R10")
 	r.Rule("R8", "held exactly when the latest acknowledgement enabled it: the capability set's Add stores false under name for a token \"-name\" (decided by HasPrefix(token, \"-\"), key token[1:]) and true under the token itself otherwise - nothing else decides, nothing is trimmed by character class")
 	c.capAddRule("R8")
 	r.Rule("R7", "Cap(END) said is CAP END sent: on every path through Cap on which no capability list was given, a line is handed to Raw - no state of the client (a count of pending requests, say) can hold the line back")
@@ -2792,4 +2798,56 @@ func (c *Ctx) ackReachesAuth(fn, authFn *ssa.Function) []ssa.CallInstruction {
 		}
 	}
 	return out
+}
+
+// capHasRule: C19.R9.
+func (c *Ctx) capHasRule(rule string) {
+	r := c.R
+	capT := c.Named(c.Client, "capSet")
+	if !r.Anchor(rule, "capability set type", capT != nil) {
+		return
+	}
+	var has *ssa.Function
+	ms := c.SSA.MethodSets.MethodSet(types.NewPointer(capT))
+	for i := 0; i < ms.Len(); i++ {
+		if fn := c.SSA.MethodValue(ms.At(i)); fn != nil && c.capRole(fn) == "Has" {
+			has = fn
+		}
+	}
+	if !r.Anchor(rule, "the capability set's Has method", has != nil) {
+		return
+	}
+	n := 0
+	funcInstrs(has, func(in ssa.Instruction) {
+		rt, ok := in.(*ssa.Return)
+		if !ok || len(rt.Results) != 1 {
+			return
+		}
+		n++
+		okR, why := true, "the map entry of the argument"
+		for _, o := range c.originsLocal(retVal(rt, 0)) {
+			if k, isK := o.(*ssa.Const); isK && k.Value != nil && k.Value.String() == "false" {
+				continue
+			}
+			var lk *ssa.Lookup
+			switch t := o.(type) {
+			case *ssa.Lookup:
+				lk = t
+			case *ssa.Extract:
+				lk, _ = t.Tuple.(*ssa.Lookup)
+			}
+			if lk == nil || lk.Index != ssa.Value(has.Params[1]) {
+				okR, why = false, "answers with "+o.String()+", not with the entry of its own argument"
+			}
+		}
+		r.Add(rule, fmt.Sprintf("cap-has#%d", n), c.InstrPos(rt), c.FuncKey(has), "Has answers with the map entry of its argument", okR, why)
+	})
+	loops := 0
+	for _, b := range has.Blocks {
+		if c.IsLoopHeader(b) {
+			loops++
+		}
+	}
+	r.Add(rule, "cap-has-no-search", c.Pos(has.Pos()), c.FuncKey(has), "Has does not search the set", loops == 0, fmt.Sprintf("%d loops", loops))
+	r.Floor(rule, "returns of the capability set's Has", n, 1)
 }
